@@ -304,3 +304,44 @@ Example C16_ex_selKey_zero :
   config_get_str name_selection_keys (set_selKey (Some [113; 50; 51; 52; 53; 54; 55; 56; 57; 48]) 10 init_config)
     = SOk (codes "q234567890").
 Proof. split; reflexivity. Qed.
+
+(* ---- the conversion engine, through the C calls (Model/CapiRun.v; Proofs/EngineFrame.v, Proofs/CapiEngine.v) ----
+   "A value outside the range is rejected and leaves every option unchanged" - and what the options REPORT stays what is
+   IN EFFECT: after every sequence of C calls with any arguments (key entry with any int, candidate calls, keyboard
+   type and selection keys, commit / clean / reset, chewing_config_set_int with ANY name and ANY int - accepted or
+   rejected -, user-phrase calls) on a fresh context, the engine chewing_config_get_int("chewing.conversion_engine")
+   reports is the engine installed in the editor, and the lookup-strategy option is the one that engine looks up with.
+   The value table of the option (value -> kind stored, engine installed, strategy stored) is regenerated from
+   capi/src/io.rs on every run; the theorem rests on the finite check that every row installs the kind it stores. *)
+From LC Require Import Model.Composition Model.Conversion Model.Editor Model.EditorRun Model.EdInst Model.CapiKeys Model.CapiConfig Model.CapiRun
+     Proofs.EngineFrame Proofs.CapiEngine.
+
+Theorem C16_the_engine_reported_is_the_engine_in_effect_after_any_C_calls : forall conv d ab ss t0 ops c',
+  Forall c_call ops -> crun conv (cx_init d ab ss t0) ops = Ok c' ->
+  engine (sh (cx_ed c')) = o_engine (opts (sh (cx_ed c'))) /\
+  o_fuzzy (opts (sh (cx_ed c'))) = engine_fuzzy (engine (sh (cx_ed c'))).
+Proof.
+  intros conv d ab ss t0 ops c' Hops H.
+  exact (crun_EI conv ops _ c' Hops H (cx_init_EI d ab ss t0)).
+Qed.
+Print Assumptions C16_the_engine_reported_is_the_engine_in_effect_after_any_C_calls.
+
+(* no key event, choice, commit or reset writes the engine or the engine / lookup-strategy options *)
+Theorem C16_only_the_setters_touch_the_engine : forall D SY (dops : dict_ops D) (sops : syl_ops SY) conv (e : editor D SY) o e',
+  ~ writes_engine o -> step dops sops conv e o = Ok e' ->
+  engine (sh e') = engine (sh e) /\ o_engine (opts (sh e')) = o_engine (opts (sh e)) /\ o_fuzzy (opts (sh e')) = o_fuzzy (opts (sh e)).
+Proof.
+  intros D SY dops sops conv e o e' Hw H. pose proof (step_ek dops sops conv e o e' Hw H) as K.
+  unfold ek in K. inversion K. repeat split; assumption.
+Qed.
+Print Assumptions C16_only_the_setters_touch_the_engine.
+
+(* non-vacuity: fuzzy engine, then a rejected value, then the simple engine, then a rejected value; the reported and
+   the installed engine agree after each call *)
+Example C16_engine_example :
+  let h := [CConfigSetInt "chewing.conversion_engine" 2; CConfigSetInt "chewing.conversion_engine" 3;
+            CConfigSetInt "chewing.conversion_engine" 0; CConfigSetInt "chewing.conversion_engine" 77] in
+  Forall c_call h /\
+  exists c, crun mf_conv (cx_init (mkMD [] [] []) [] ss_empty 0%N) h = Ok c /\
+            engine (sh (cx_ed c)) = EngSimple /\ config_get_int_c c "chewing.conversion_engine" = 0%Z.
+Proof. cbv zeta. split; [repeat constructor|]. vm_compute. eexists. repeat split. Qed.
